@@ -8,10 +8,15 @@ Open Scope N_scope.
 
 (* Every accepted file is reflected field by field: every key's note and channel offset, every axis record with all
    its fields, deadzones and default deadzones per sub-handler (last table of a name wins), action keys, exit sequence,
-   collision mode, identifier, colours, defaults with velocity 0 |-> 64, the default mapping index = last mapping of that name. *)
+   collision mode, identifier, colours, defaults with velocity 0 |-> 64, the default mapping index designates a mapping of that name. *)
 Theorem C10_sound : forall T t c, convert T t = Ok c -> reflects T t c.
 Proof. exact convert_sound. Qed.
 Print Assumptions C10_sound.
+
+(* When several mappings carry the default name, the index designates the last of them. *)
+Theorem C10_default_is_last : forall T t c, convert T t = Ok c -> default_is_last t c.
+Proof. exact convert_default_is_last. Qed.
+Print Assumptions C10_default_is_last.
 
 (* ... and every value is inside its MIDI range. *)
 Theorem C10_ranges : forall T t c, convert T t = Ok c -> wf_pconfig c.
